@@ -429,6 +429,12 @@ pub fn run(prop: &str, thorough: bool, case_seed: u64) -> ExecOut {
     match prop {
         // selective polling / group behaviour under wake-ups from other threads
         "C16" => p.fams = vec![Fam::Join, Fam::TryJoin, Fam::Merge, Fam::Zip, Fam::FGroup, Fam::SGroup],
+        "C20" => {
+            // never-completing siblings while the others are woken from other threads
+            p.fams = vec![Fam::Join, Fam::TryJoin, Fam::Race, Fam::RaceOk, Fam::Merge, Fam::Zip, Fam::FGroup, Fam::SGroup];
+            p.force_never = true;
+            p.never_pct = 0;
+        }
         "C11" => p.fams = vec![Fam::FGroup],
         "C12" => p.fams = vec![Fam::SGroup],
         _ => {}
